@@ -225,3 +225,30 @@ def stream_producers(snap):
         if reads or (opens and iters):
             out.append(p)
     return out
+
+
+def listing_getter_roles(corpus, cmd):
+    """keyword names under which a listing command hands (snapshot path, snapshot data) to its column getters:
+    the value of the `path` role is the loop variable bound from _load_snapshots, the `data` role is <body>['data']"""
+    import ast as _ast
+    from ..astutil import deref as _deref, walk_local as _wl
+
+    f = corpus.func('repository', f'Repository.{cmd}')
+    roles = {}
+    for c in _ast.walk(f.node):
+        if isinstance(c, _ast.Call) and isinstance(c.func, _ast.Name) and c.keywords and not c.args:
+            for k in c.keywords:
+                if k.arg is None:
+                    continue
+                v = _deref(f.node, k.value)
+                if isinstance(v, _ast.Subscript) and isinstance(v.slice, _ast.Constant) and v.slice.value == 'data':
+                    roles['data'] = k.arg
+            if 'data' in roles:
+                # the path role: the keyword whose value is a loop target of the snapshot loader loop
+                for l in _wl(f.node):
+                    if isinstance(l, (_ast.For, _ast.AsyncFor)) and isinstance(l.target, _ast.Tuple) and l.target.elts and isinstance(l.target.elts[0], _ast.Name):
+                        for k in c.keywords:
+                            if isinstance(k.value, _ast.Name) and k.value.id == l.target.elts[0].id:
+                                roles.setdefault('path', k.arg)
+                break
+    return roles
